@@ -43,9 +43,13 @@ def gen_event(rng, uid, with_rule=True, zoned=None):
            "mail": [0, 0, 0, 0, 0, 0], "umsk": None, "maxsim": None, "owner": None, "u": None, "g": None}
     lines = ["UID:%s" % uid]
     props = []
-    for k in rng.sample(sorted(FIELDS), rng.randint(0, len(FIELDS))):
+    big = rng.random() < 0.04
+    for k in (sorted(FIELDS) if big else rng.sample(sorted(FIELDS), rng.randint(0, len(FIELDS)))):
         key, g = FIELDS[k]
         v = g(rng)
+        if big and not v.startswith("mailto:") and key not in ("org",):
+            # values near the parser's line limit: the task takes more than one 4 KiB buffer to write out
+            v = (v + "/" + "".join(rng.choice("abcdefghijklmnopqrstuvwxyz0123456789._-") for _ in range(rng.randint(600, 880))))[:940]
         props.append("%s:%s" % (k, v))
         exp[key] = esc(v[7:] if v.startswith("mailto:") else v)
     for _ in range(rng.choice([0, 0, 1, 2, 3])):
@@ -117,6 +121,14 @@ def gen_event(rng, uid, with_rule=True, zoned=None):
         if rng.random() < 0.15:
             sched.append("EXDATE:" + dstxt + ("" if ds[3] is None else "Z"))
             meta["cls"].add("exdate")
+        if rng.random() < 0.25 and not zoned:
+            # dates next to the rules: one event, one DTSTART
+            yrs = list(range(ds[0], min(2098, ds[0] + 30) + 1))
+            ys = sorted(rng.sample(yrs, min(len(yrs), rng.randint(1, 5))))
+            tail = "%02d%02d" % (rng.randint(1, 12), rng.randint(1, 28)) + dstxt[8:]
+            sched.append("RDATE%s:" % (";VALUE=DATE" if ds[3] is None else "") +
+                         ",".join("%04d%s" % (y, tail) + ("" if ds[3] is None else "Z") for y in ys))
+            meta["cls"].add("rule+rdate")
     elif rng.random() < 0.5:
         n = rng.randint(1, 70)
         ys = sorted(rng.sample(range(ds[0] + 1, ds[0] + 90), min(n, 80)))
@@ -190,6 +202,27 @@ def run(ctx):
         want = expect_dump(exp)
         if m.group(1) != want:
             fails.append((ops[i], "attributes read\n   %s\nthe text assigns\n   %s\n%s" % (m.group(1), want, t)))
+    # 1b. several events in one text, looked at after all of them have been read (UIDs of every length: they are interned
+    #     side by side)
+    batches = []
+    for b in range(120 if thorough else 40):
+        evs = []
+        for j in range(rng.randint(2, 6)):
+            ln = rng.choice([3, 4, 4, 5, 7, 8, 8, 11, 12, 12, 13, 16, 16, 20, 24, 31, 32])
+            uid = ("b%dx%d" % (b, j) + "abcdefghijklmnopqrstuvwxyz-0123456789@example")[:ln]
+            evs.append(gen_event(rng, uid, with_rule=False, zoned=None))
+        text = "\n".join(["BEGIN:VCALENDAR", "VERSION:2.0"] + sum((["BEGIN:VEVENT"] + e[0] + ["END:VEVENT"] for e in evs), []) + ["END:VCALENDAR", ""])
+        batches.append((text, evs))
+    bops = ["p.all " + t.encode("latin-1").hex() for t, _ in batches]
+    bimpl, bst, berr = ctx.impl(exe, bops, timeout=300)
+    for i, (t, evs) in enumerate(batches):
+        a = bimpl[i] if i < len(bimpl) else "<no answer>"
+        got = re.findall(r"S\{(.*?)\|vtod=[^}]*\}", a)
+        want = [expect_dump(e[1]) for e in evs]
+        if got != want:
+            k = next((k for k in range(min(len(got), len(want))) if got[k] != want[k]), min(len(got), len(want)))
+            fails.append((bops[i], "of %d events read from one text, event %d has the attributes\n   %s\nthe text assigns\n   %s" % (
+                len(evs), k, got[k] if k < len(got) else "(missing)", want[k] if k < len(want) else "(none)")))
     # 2. round trip at several consumption points
     nocc = 12
     ks = [0, 1, 5, 63, 64, 65, 130, 200]
@@ -236,7 +269,7 @@ def run(ctx):
             if not meta["rules"]:
                 cls.add("no-rule")
             allr = meta["rules"] + ([meta["xrule"]] if meta.get("xrule") else [])
-            if (len(allr) > 1 or "shift" in cls) and any(r_.interval > 1 for r_ in allr):
+            if (len(allr) > 1 or "shift" in cls or "rule+rdate" in cls) and any(r_.interval > 1 for r_ in allr):
                 cls.add("phase")
             if "phase" in cls:
                 known["phase"] += 1          # finding D15: INTERVAL phase of secondary / shifted rules is not kept
